@@ -263,6 +263,37 @@ def compare_vec(impl, model, rtol=1e-8, atol_rel=1e-9):
     return None, worst
 
 
+def compare_revert_preconditioned(c, impl, parts):
+    """Reversal (op 3) is compared IN THE PRECONDITIONED COORDINATES the library computes in, matrix by matrix (normwise): the
+    scalings are powers of two, so dividing them out is exact; in plain coordinates the rounding error of a small entry of a
+    preconditioned matrix is blown up by up to 2^(2 span) relative to the largest plain entry (span 40: meaningless)."""
+    nin, nout, cc = c["nin"], c["nout"], c["c"]
+    pos, worst = 0, 0.0
+    for blk, part in zip(c["blocks"], parts):
+        tl = [float(x) for x in blk["K1"]["tl"]]
+        to = [float(x) for x in blk["K1"]["to"]]
+        seg = [("observed mean", nout, cc, lambda i, a: 1.0 / to[i]),
+               ("observed covariance", nout, nout, lambda i, j: 1.0 / (to[i] * to[j])),
+               ("backward A", nin, nout, lambda i, l: tl[i] * to[l]),
+               ("backward offset", nin, cc, lambda i, a: tl[i]),
+               ("backward noise", nin, nin, lambda i, j: tl[i] * tl[j])]
+        k = 0
+        for name, rows, cols, fac in seg:
+            fi = [impl[pos + k + i * cols + j] * fac(i, j) for i in range(rows) for j in range(cols)]
+            fm = [Fr(part[k + i * cols + j]) * Fr(fac(i, j)) for i in range(rows) for j in range(cols)]
+            mism, w = compare_vec(fi, fm)
+            if mism:
+                return f"{name} (preconditioned coordinates): {mism}", 0
+            worst = max(worst, w)
+            k += rows * cols
+        if k != len(part):
+            return f"length {len(part)} vs expected {k}", 0
+        pos += k
+    if pos != len(impl):
+        return f"length {len(impl)} vs {pos}", 0
+    return None, worst
+
+
 def signature(case, where):
     return f"C08.{case['kind']}.{OPS[case['op']]}"
 
@@ -305,7 +336,10 @@ def main():
             if "error" in r:
                 ck.report(signature(c, "exc") + ".exception", f"implementation raised {r['error']}", {"case": jsonable(c), "impl": r})
                 continue
-            mism, w = compare_vec(r["out"], model)
+            if c["op"] == 3:
+                mism, w = compare_revert_preconditioned(c, r["out"], parts)
+            else:
+                mism, w = compare_vec(r["out"], model)
             if mism:
                 ck.report(signature(c, mism), f"{c['kind']} {OPS[c['op']]}: {mism}",
                           {"case": jsonable(c), "impl": r["out"], "model": [float(x) for x in model], "mismatch": mism})
@@ -337,7 +371,7 @@ def main():
                   {"broken": pr.get("failed_at", "Props/C08.v"), "errors": pr["errors"]}, nofail=True)
     ck.finish(rule="cases = (factorisation, operation, shapes nin/nmid/nout<=4 (6 thorough), d<=3 (5), rational matrices k/4, "
               "lower-triangular factors incl. singular/zero, power-of-two scalings 2^-span..2^span); implementation objects built as "
-              "type(c)(A, noise, to_latent, to_observed); outputs compared in plain form with rtol 1e-8 (+1e-9*max); "
+              "type(c)(A, noise, to_latent, to_observed); outputs compared in plain form with rtol 1e-8 (+1e-9*max), reversal in the preconditioned coordinates matrix by matrix; "
               "non-trivial = non-unit scalings or merge/revert; distinct by full input")
 
 
